@@ -2,7 +2,7 @@
 From Coq Require Import List ZArith Bool.
 From TR Require Import model.Ring model.Processor model.ProcAbs model.ProcSpec proofs.ProcS0102.
 (* constants and wiring read from the Go sources on every run *)
-From TR Require Import model.ProcExt proofs.TieCorollaries.
+From TR Require Import model.ProcExt proofs.TieProcCorollaries.
 From TR Require Import proofs.FactsRing proofs.FactsProc.
 Import ListNotations.
 Open Scope Z_scope.
